@@ -96,3 +96,20 @@ def check_same_score(pm, cname, ovo):
     if not isinstance(b, tuple):
         raise Unsupported("no pair")
     return equal(as_scalar(a), as_scalar(b[0]))
+
+
+def check_independence(pm, cname, ovo):
+    """value of the score when the predictions do not depend on the sample (y[n,k] = c[k], sum_k c[k] = 1) -> Poly"""
+    from .e8_index import replace_tensor, mk_var
+    X.SIMPLEX["on"] = False
+    out, notes = evaluate_terms(pm, cname, ovo, False)
+    sc = as_scalar(out)
+    X.POSITIVE_VARS.add("c")
+    old = X.SIMPLEX["var"]
+    X.SIMPLEX["var"] = "c"
+    X.SIMPLEX["on"] = True
+    try:
+        return replace_tensor(sc, "y", lambda idx: Poly.atom(mk_var("c", (idx[1],))))
+    finally:
+        X.SIMPLEX["var"] = old
+        X.SIMPLEX["on"] = False
